@@ -88,10 +88,20 @@ def check(run, prog, tier):
     for fmt_ in free_msg:
         lits = sorted(v for v in constants_compared(allconds, lambda tm, fmt_=fmt_: tm == fmt_) if isinstance(v, int))[:2]
         fm_dom.append(sorted(set([0, 0x1234] + lits)) if fmt_[2] != "payload" else [b"", b"req"])
-    for svc_v, iv_v, known, mtype, rcode, hres, multi, fvals, mvals in itertools.product(
+    # what the handler returns is the reply's payload "for payloads of any length": besides an ordinary one the empty payload
+    # and the lengths around every literal the code compares the result's length with are classes of their own
+    def _is_result(tm):
+        return tm[0] == "call" and tm[1][0] == "call" and tm[1][1] == ("attr", ("attr", me, "methods"), "get")
+    res_lens = sorted(v for v in constants_compared(allconds, lambda tm: tm[0] == "call" and tm[1] == ("ext", "len") and len(tm[2]) == 1 and _is_result(tm[2][0]))
+                      if isinstance(v, int) and 0 <= v <= 0x20000)[:3]
+    payloads = [b"resp", b""] + [bytes([0x5A]) * n for L in res_lens for n in (L - 1, L, L + 1) if n > 0]
+    for svc_v, iv_v, known, mtype, rcode, hres_, multi, fvals, mvals in itertools.product(
             [0x1111] + other_sid, [3] + other_iv, (True, False), ("REQUEST", "REQUEST_NO_RETURN", "NOTIFICATION", "RESPONSE"), ("E_OK", "E_NOT_OK"),
-            ("bytes", "none", "malformed"), (False, True), list(itertools.product((False, True), repeat=len(free))),
-            list(itertools.product(*fm_dom))):
+            [("bytes", pl_) for pl_ in payloads] + [("none", None), ("malformed", None)], (False, True),
+            list(itertools.product((False, True), repeat=len(free))), list(itertools.product(*fm_dom))):
+        hres, hpay = hres_
+        if hpay not in (None, b"resp") and not (svc_v == 0x1111 and iv_v == 3 and known and mtype == "REQUEST" and rcode == "E_OK"):
+            continue  # the payload classes matter where the handler is called and answered
         cases += 1
         svc_ok, iv_ok = svc_v == 0x1111, iv_v == 3
         fmap = dict(zip(free, fvals))
@@ -115,7 +125,7 @@ def check(run, prog, tier):
             if tm[0] == "call" and tm[1] == ("attr", ("attr", me, "methods"), "get"):
                 return HANDLER if known else None
             if tm[0] == "call" and tm[1][0] == "call" and tm[1][1] == ("attr", ("attr", me, "methods"), "get"):
-                return b"resp" if hres == "bytes" else None
+                return hpay if hres == "bytes" else None
             raise AnalysisError(f"{mr.qual}: decision depends on {show(tm)}")
 
         hits = []
@@ -151,7 +161,7 @@ def check(run, prog, tier):
         elif hres == "malformed":
             want = ("ERROR", "E_MALFORMED_MESSAGE")
         elif hres == "bytes" and mtype == "REQUEST":
-            want = ("RESPONSE", None)
+            want = ("RESPONSE", None)  # (whatever the length of the result, the empty one included)
         else:
             want = None
         sends = calls_to(p, send.qual)
@@ -203,8 +213,8 @@ def check(run, prog, tier):
             if got_rc != rc[want[1]]:
                 failures.setdefault(f"R2:return-code[{want[1]}]", f"{desc}: error reply carries {got_rc!r}; expected {want[1]}")
         else:
-            if got_mt != mt["RESPONSE"] or got_rc != rc["E_OK"] or got_pl != b"resp":
-                failures.setdefault("R3:positive-reply-fields", f"{desc}: positive reply has type {got_mt!r}, return code {got_rc!r}, payload {got_pl!r}; expected RESPONSE / E_OK / the handler's payload")
+            if got_mt != mt["RESPONSE"] or got_rc != rc["E_OK"] or got_pl != hpay:
+                failures.setdefault("R3:positive-reply-fields", f"{desc} ({len(hpay)} byte result): positive reply has type {got_mt!r}, return code {got_rc!r}, payload {str(got_pl)[:20]!r} ({len(got_pl) if isinstance(got_pl, (bytes, bytearray)) else '?'} bytes); expected RESPONSE / E_OK / the handler's payload")
     run.abstract_cases += cases
     run.exhaustive = True
     for k in sorted(failures):
